@@ -19,6 +19,7 @@ import (
 
 	"github.com/TarsCloud/TarsGo/tars/protocol/codec"
 	"verif/common"
+	"verif/gen"
 	"verif/ref"
 )
 
@@ -366,10 +367,11 @@ type Case struct {
 }
 
 type viol struct {
-	what  string
-	c     Case
-	size  int
-	count uint64
+	what    string
+	c       Case
+	size    int
+	count   uint64
+	structs map[string]struct{} // structs with at least one case under the signature
 }
 
 type stats struct {
@@ -385,13 +387,14 @@ func newStats() *stats {
 
 // report counts a violation and keeps, per signature, the smallest case
 // (first one among equals; units are merged in a fixed order).
-func (s *stats) report(sig string, size int, mk func() (string, Case)) {
+func (s *stats) report(sig, subject string, size int, mk func() (string, Case)) {
 	v := s.viols[sig]
 	if v == nil {
-		v = &viol{size: 1 << 62}
+		v = &viol{size: 1 << 62, structs: map[string]struct{}{}}
 		s.viols[sig] = v
 	}
 	v.count++
+	v.structs[subject] = struct{}{}
 	if size < v.size {
 		v.what, v.c = mk()
 		v.c.Sig = sig
@@ -414,8 +417,15 @@ func (s *stats) merge(o *stats) {
 		m := s.viols[sig]
 		if m == nil {
 			c := *v
+			c.structs = map[string]struct{}{}
+			for k := range v.structs {
+				c.structs[k] = struct{}{}
+			}
 			s.viols[sig] = &c
 			continue
+		}
+		for k := range v.structs {
+			m.structs[k] = struct{}{}
 		}
 		m.count += v.count
 		if v.size < m.size {
@@ -521,6 +531,51 @@ func flush(run *common.Run, total *stats) map[string]uint64 {
 		run.Violation(sig, fmt.Sprintf("%s [%d cases with this signature; smallest shown]", v.what, v.count), v.c)
 	}
 	return bySig
+}
+
+// affected lists, per signature, how many structs have a violating case and
+// which of the framework's own structs are among them.
+func affected(total *stats, subjects []*Subject) map[string]any {
+	origin := map[string]string{}
+	for _, s := range subjects {
+		origin[s.Name] = s.Origin
+	}
+	out := map[string]any{}
+	for sig, v := range total.viols {
+		var res []string
+		for k := range v.structs {
+			if origin[k] == "res" {
+				res = append(res, k)
+			}
+		}
+		sort.Strings(res)
+		out[sig] = map[string]any{"structs": len(v.structs), "res_structs": res}
+	}
+	return out
+}
+
+// hollowCorpus: declarations that tars2go rejects or that do not compile are
+// dropped by verif/gen and reported by C16; if that removes a large part of
+// the corpus, a green result here would mean nothing.
+func hollowCorpus(run *common.Run, subjects []*Subject, corpus *gen.Corpus) {
+	if corpus == nil {
+		run.InfraError("no corpus metadata (%s unset): the driver must be started by the bootstrap", envTarsDir)
+		return
+	}
+	dropped, kept := 0, 0
+	for _, e := range corpus.Excluded {
+		if e.UKind == "struct" {
+			dropped++
+		}
+	}
+	for _, s := range subjects {
+		if s.Origin == "corpus" {
+			kept++
+		}
+	}
+	if dropped*5 > kept {
+		run.InfraError("%d corpus structs were excluded by the corpus build (tars2go rejected them or the output does not compile), only %d remain: see C16", dropped, kept)
+	}
 }
 
 func bootFacts() map[string]any {
